@@ -41,7 +41,7 @@ class HarnessError(Exception):
 FEAS_TIMEOUT_MS = int(os.environ.get("SYMX_FEAS_TIMEOUT_MS", "10000"))
 OBL_TIMEOUT_MS = int(os.environ.get("SYMX_OBL_TIMEOUT_MS", "30000"))
 NRA_TIMEOUT_MS = int(os.environ.get("SYMX_NRA_TIMEOUT_MS", "60000"))
-NRA_MODE = os.environ.get("SYMX_NRA_MODE", "hybrid")
+NRA_MODE = os.environ.get("SYMX_NRA_MODE", "oneshot")
 HYBRID_MS = int(os.environ.get("SYMX_HYBRID_MS", "300"))
 
 
